@@ -138,6 +138,29 @@ def check_1d2d(flux, pair, nx, ny, lr, tb, idx, axis, res=None, par="std"):
     return out
 
 
+def shard_1d2d_gamma(arg):
+    """the same comparison for another ratio of specific heats (both models built with it), on the smaller sizes"""
+    global G
+    flux, pair, g = arg
+    res = core.Res()
+    old, G = G, g
+    try:
+        lrs = [("per", "per"), ("sym", "sym"), ("insub", "outsub"), ("outsub", "insub"), ("insup", "outsup")]
+        for nx, ny in ((2, 2), (3, 1), (3, 2)):
+            for lr in lrs:
+                for tb in ("per", "sym"):
+                    for axis in (0, 1):
+                        for idx in itertools.product(range(3), repeat=nx):
+                            if len(set(idx)) > 1:
+                                res.nontrivial += 1
+                            for s, w in check_1d2d(flux, pair, nx, ny, lr, tb, idx, axis, res):
+                                res.violation(s.replace("C15/2d=1d/", "C15/2d=1d/gamma=%g/" % g), w + " [both models with gamma=%r]" % g,
+                                              {"kind": "1d2d", "flux": flux, "pair": list(pair), "nx": nx, "ny": ny, "lr": list(lr), "tb": tb, "idx": list(idx), "axis": axis, "gamma": g})
+    finally:
+        G = old
+    return res
+
+
 def shard_1d2d(arg):
     flux, pair, tier = arg
     res = core.Res()
@@ -302,6 +325,7 @@ def shard_sym_multi(args):
 def run(ctx):
     th = ctx.thorough
     ctx.pmap("2d-equals-1d", shard_1d2d, [(fl, pair, ctx.tier) for fl in ("centered", "hlle") for pair in PAIRS])
+    ctx.pmap("2d-equals-1d-other-gamma", shard_1d2d_gamma, [(fl, pair, g) for fl in ("centered", "hlle") for pair in (PAIRS if th else PAIRS[:3]) for g in ((5.0 / 3.0, 1.2) if th else (5.0 / 3.0,))])
     recs = space.X2_ALL if th else ["extrapol2d1", "extrapol2dk:-1.0", "extrapol2dk:0.3333333333333333"]
     cfg = []
     for flux in ("centered", "hlle"):
@@ -320,6 +344,14 @@ def run(ctx):
 
 
 def replay(case):
+    global G
+    if case["kind"] == "1d2d" and "gamma" in case:
+        old, G = G, case["gamma"]
+        try:
+            v = check_1d2d(case["flux"], tuple(case["pair"]), case["nx"], case["ny"], tuple(case["lr"]), case["tb"], tuple(case["idx"]), case["axis"], par=case.get("par", "std"))
+        finally:
+            G = old
+        return [(s_.replace("C15/2d=1d/", "C15/2d=1d/gamma=%g/" % case["gamma"]), w + " [both models with gamma=%r]" % case["gamma"]) for s_, w in v]
     if case["kind"] == "1d2d":
         return check_1d2d(case["flux"], tuple(case["pair"]), case["nx"], case["ny"], tuple(case["lr"]), case["tb"], tuple(case["idx"]), case["axis"], par=case.get("par", "std"))
     v = check_sym(case["flux"], case["recon"], tuple(case["grid"]), tuple(case["names"]), tuple(case["idx"]), case["angle"])
